@@ -83,6 +83,10 @@ theorem return_paths_as_modelled : returnPaths = [
 
 theorem create_revert_condition : createRevertCond = "maxCodeSizeExceeded || (err != nil && err != ErrCodeStoreOutOfGas)" := by decide
 
+/-- the max-code-size test is strict: exactly `MaxCodeSize` bytes are allowed (`retmax` in the trees),
+    one more is `ErrMaxCodeSizeExceeded` (`rethuge`) -/
+theorem create_size_test_as_modelled : createSizeTest = "maxCodeSizeExceeded := len(ret) > MaxCodeSize" := by decide
+
 theorem read_only_guard_as_modelled : readOnlyGuard = "in.readOnly && (operation.writes || (op == CALL && stack.Back(2).Sign() != 0)) -> ErrWriteProtection" := by decide
 
 /-- `Run` only ever SETS `in.readOnly` (and resets it on leaving the frame that set it): the flag is
@@ -95,6 +99,18 @@ theorem read_only_sticky_as_modelled :
 theorem prepare_assigns_as_modelled : prepareAssigns = ["accessList", "bhash", "thash", "txIndex"] := by decide
 
 theorem block_loop_as_modelled : vmexecFacts = ["accountdb.Prepare(transaction.Hash,common.Hash{},i)[common.IsProposal013()]", "accountdb.Snapshot", "txExecutor.Execute", "accountdb.RevertToSnapshot[!success]", "receipt.Logs=this.accountdb.GetLogs(transaction.Hash)", "accountdb.GetLogs(transaction.Hash)[common.IsProposal013()]", "receipt.Logs=logs.([]*types.Log)", "exec:vmInstance.Create", "exec:accountdb.SetNonce[!(transaction.Target == \"\") && common.IsProposal007()]", "exec:vmInstance.Call", "exec:context[logs]=logs"] := by decide
+
+/-- Which function on the C12 path consults which fork flag. The model takes `IsProposal013`,
+    `IsProposal007`, `!IsProposal006 || IsProposal007` as inputs (`Cfg`), the harness derives the opcode
+    availability (`Proposal014Block`, `Proposal022Block`) and the gas regime (`Proposal026`, `015`) from the
+    schedule in force, and `IsProposal002` (balance journaling in `AddFT`/`SubFT`) is C04's `p002`
+    hypothesis. A new flag read on the path breaks this. -/
+theorem flag_reads_as_modelled : flagReads = ["account.AccountDB.AddFT:IsProposal002", "account.AccountDB.SubFT:IsProposal002", "core.VMExecutor.Execute:IsProposal006", "core.VMExecutor.Execute:IsProposal007", "core.VMExecutor.Execute:IsProposal013", "core.VMExecutor.Execute:IsProposal015", "core.VMExecutor.Execute:IsProposal018", "core.VMExecutor.Execute:IsProposal027", "core.VMExecutor.Execute:Proposal010Block", "core.VMExecutor.Execute:Proposal019Block", "executor.contractExecutor.Execute:IsProposal007", "executor.contractExecutor.Execute:IsProposal015", "executor.contractExecutor.Execute:IsProposal017", "executor.contractExecutor.Execute:IsProposal026", "executor.contractExecutor.decodeContractData:IsProposal005", "executor.contractExecutor.decodeContractData:IsProposal017", "vm.EVM.create:IsProposal006", "vm.EVM.create:IsProposal007", "vm.EVM.create:IsProposal026", "vm.NewEVMInterpreter:Proposal014Block", "vm.NewEVMInterpreter:Proposal022Block", "vm.NewEVMInterpreter:Proposal026Block", "vm.gasCreate2:IsProposal026", "vm.gasExpEIP158:IsProposal026", "vm.gasExpFrontier:IsProposal026", "vm.gasSStore:IsProposal015", "vm.gasSStore:IsProposal026", "vm.gasSStoreEIP2200:IsProposal015", "vm.gasSStoreEIP2200:IsProposal026", "vm.gasSha3:IsProposal026", "vm.makeGasLog:IsProposal026", "vm.memoryCopierGas:IsProposal026", "vm.memoryGasCost:IsProposal026"] := by decide
+
+/-- Functions of package vm / storage/account that assign package-level variables: only logger
+    set-up, the precompile address list (package init) and the ERC-20 ledger address cache. No frame
+    entry point, opcode or journal method keeps state in a package-level variable. -/
+theorem global_writes_as_modelled : globalWrites = ["account.AccountDB.loadContractCache:rpgContractAddress", "account.Init:accountLog", "vm.InitVM:logger", "vm.init:PrecompiledAddresses"] := by decide
 
 theorem vm_constants_as_modelled : vmConstants = ["CallCreateDepth=1024", "CreateDataGas=200", "MaxCodeSize=245760"] := by decide
 
